@@ -20,4 +20,4 @@ for c in "$@"; do
   echo "$out" | grep -E "^  signature" | head -3 | cut -c1-400
 done
 git -C /repo checkout -- .
-} 2>&1 | tee $DIR/result.txt
+} 2>&1 | tee ${SEED_OUT:-$DIR/result.txt}
